@@ -167,3 +167,21 @@ def _ast_dump(ex, args, kwargs, lineno):
 
 # ---- process-level effects (click.echo -> ghost stdout/stderr, sys.exit -> SystemExit(code), loguru, json.dumps) -----
 from contracts import _effects  # noqa: E402,F401  (registers the external handlers)
+
+
+# ---- stdlib logging (C11 ...): diagnostics only -- a logger is an opaque object whose methods have no effect on any
+# ---- modelled state (the ARGUMENTS of the call are still evaluated by the executor, so their exceptions are followed)
+LoggerT = Opaque("Logger")
+
+
+@external("logging.getLogger")
+def _logging_get_logger(ex, args, kwargs, lineno):
+    return VOpaque(z3.Const("the_logger", LoggerT.sort()), LoggerT)
+
+
+def _logger_no_effect(ex, args, kwargs, lineno):
+    return VNone()
+
+
+for _lvl in ("debug", "info", "warning", "error", "exception", "critical", "log"):
+    external(f"Logger.{_lvl}")(_logger_no_effect)
